@@ -229,7 +229,7 @@ func c09Start(r *Run, c *Case, spec *c09Spec) *c09Env {
 	e.dir = filepath.Join(r.Scratch, fmt.Sprintf("c09-%d", c.Idx))
 	_ = os.MkdirAll(e.dir, 0o755)
 	script := filepath.Join(e.dir, "hook.sh")
-	_ = os.WriteFile(script, []byte("#!/bin/bash\ncat \"$BINDING_CONTEXT_PATH\" > \"$0.out\"\n"), 0o755)
+	_ = writeScript(script, []byte("#!/bin/bash\ncat \"$BINDING_CONTEXT_PATH\" > \"$0.out\"\n"), 0o755)
 
 	if c09SameNames(spec) {
 		c.Known = "same-name-bindings" // classifier of the recorded finding: two bindings of one type share a name
